@@ -107,8 +107,8 @@ def probe(img: bytes, password, maxlen: int, progress, label):
             z.close()
         except Exception:
             pass
-        if bad and len(out) > 6:
-            break
+        if bad:
+            break  # one hang / memory blow-up / non-exception per input is enough; do not burn the budget 56 times
     return out, counts
 
 
@@ -131,7 +131,13 @@ def shard(task):
         with open(pfile, "w") as f:
             f.write(f"{kind}:{arg}: {s}")
 
+    slow = {"n": 0}
+
     def run(img, pw, label, sig_extra, case):
+        if slow["n"] >= 3:
+            # three inputs of this shard already blew the budget: the remaining ones are left unexplored (counted), the verdict is out
+            sh.count("inputs_skipped_after_3_budget_violations_in_shard")
+            return
         rss0 = resource.getrusage(resource.RUSAGE_SELF).ru_maxrss
         viol, counts = probe(img, pw, maxlen, progress, label)
         if metered and (resource.getrusage(resource.RUSAGE_SELF).ru_maxrss - rss0) * 1024 > MEM_HEADROOM:
@@ -139,6 +145,8 @@ def shard(task):
         sh.case(digest(img), nontrivial=bool(counts["opened"]), sample={"input": label, "bytes": len(img), "opened": bool(counts["opened"]), "calls": counts["calls"]} if len(sh.samples) < 2 and counts["opened"] else None)
         sh.count("inputs_opened", counts["opened"])
         sh.count("calls", counts["calls"])
+        if any(sym in ("hang", "memory") for sym, _ in viol):
+            slow["n"] += 1
         seen = set()
         for sym, msg in viol:
             key = (sym, msg.split(" did not")[0][:60])
